@@ -23,7 +23,7 @@ def move_case(n, outcomes, msg_id=5, pc_id=1, default_handler=False, declared=No
     """n data sets supplied by the application, outcomes: string over 's','w','f' per sub-operation."""
     from pynetdicom2 import sopclass
     case = {'kind': 'move', 'n': n, 'outcomes': outcomes, 'msg_id': msg_id, 'pc_id': pc_id, 'default': default_handler,
-            'lazy': lazy, 'confirm_release': confirm_release}
+            'lazy': lazy, 'confirm_release': confirm_release, 'declared': declared}
     dss = [svc.simple_ds(PatientName='P%d' % i, PatientID='ID%d' % i, SOPClassUID=svc.SC_STORAGE,
                          SOPInstanceUID='1.2.826.0.1.3680043.9.19.%d' % (i + 1)) for i in range(n)]
     handlers = {}
@@ -342,6 +342,13 @@ def run_move_enum(ctx, job):
     if 0 in job['ns']:
         ctx.case(('move', 'default-handler'), True, labels=['move', 'default-handler'])
         ctx.check(move_case, 0, '', 5, 1, True)
+        # the application announced instances but supplies none (they were deleted meanwhile, say): still nothing to
+        # move, still exactly one final response
+        for declared in (1, 3):
+            for lazy in (False, True):
+                ctx.case(('move', 'announced-but-none', declared, lazy), True, labels=['move', 'announced-but-none'],
+                         sample={'announced': declared, 'supplied': 0})
+                ctx.check(move_case, 0, '', 5, 1, False, declared, lazy)
 
 
 def run_random(ctx, n):
@@ -412,7 +419,7 @@ def replay(case):
     if case['kind'] == 'repeated-moves':
         repeated_moves(case['moves'], case['creds'], case.get('lazy', False))
     elif case['kind'] == 'move':
-        move_case(case['n'], case['outcomes'], case['msg_id'], case['pc_id'], case.get('default', False), None, case.get('lazy', False),
+        move_case(case['n'], case['outcomes'], case['msg_id'], case['pc_id'], case.get('default', False), case.get('declared'), case.get('lazy', False),
                   case.get('confirm_release', True))
     else:
         get_case(case['script'], case['handler_outcomes'], case['final_status'], case['file_backed'], case['msg_id'])
